@@ -1,1 +1,24 @@
 import Martian.Props.C06
+open Martian.Props.C06
+#print axioms returned_cert_verifies
+#print axioms named_host_served
+#print axioms stale_entry_replaced
+#print axioms expired_is_stale
+#print axioms reuse_only_while_valid
+#print axioms valid_entry_reused
+#print axioms no_cross_host
+#print axioms san_dns_or_ip
+#print axioms cache_key_is_normalised_host
+#print axioms no_host_refused
+#print axioms tls_no_sni_refused
+#print axioms refused_iff_no_host
+#print axioms sni_or_fallback
+#print axioms empty_host_served_before_fix
+#print axioms org_in_every_history
+#print axioms served_cert_right_in_every_history
+#print axioms concurrent_own_host
+#print axioms two_steps_are_cert
+#print axioms subsecond_validity_born_expired
+#print axioms bracketed_v6_without_port
+#print axioms facts_lock_discipline
+#print axioms facts_defaults
